@@ -102,6 +102,16 @@ VerdictHD(p, e, s) ==
             ELSE IF e.pub # pk THEN V("wif-public-key", Cut(pk), Cut(e.pub))
             ELSE IF \E n \in 1..Len(p.cfg.nets) : e.fornet[n] # (p.cfg.nets[n].wif = e.netid) THEN V("wif-network", e.netid, e.fornet)
             ELSE OK
+    [] e.op = "WifMutate" ->
+         \* the value is a plain struct: after the flag is flipped the text and the public key follow the new flag
+         LET exp1 == WifString(e.env, e.netid, e.key, e.compressed)
+             exp2 == WifString(e.env, e.netid, e.key, ~e.compressed)
+             pk == IF ~e.compressed THEN EcBase(e.env, e.key) ELSE EnvGet(e.env, "ec-uncompress", EcBase(e.env, e.key))
+         IN IF Sha256d4(e.env, <<e.netid>> \o e.key) = Missing \/ Sha256d4(e.env, <<e.netid>> \o e.key \o <<1>>) = Missing \/ pk = Missing THEN EnvMissingV("wif")
+            ELSE IF e.str1 # exp1 THEN V("wif-string", Cut(exp1), Cut(e.str1))
+            ELSE IF e.str2 # exp2 THEN V("wif-string-after-flag-change", Cut(exp2), Cut(e.str2))
+            ELSE IF e.pub2 # pk THEN V("wif-public-key-after-flag-change", Cut(pk), Cut(e.pub2))
+            ELSE OK
     [] e.op = "WifDecode" ->
          LET x == WifDecode(e.env, e.s) IN
          IF x.why = "ENV-MISSING" THEN EnvMissingV("wif-decode")
